@@ -255,7 +255,7 @@ where
                                 warn!("Failed to send window content to consumer: {:?}", e);
                             }
                             #[cfg(kolibrie_verif)]
-                            crate::verif_sched::note_send();
+                            crate::verif_sched::note_send(&self.uri);
                         }
                         // single threaded consumer using callback
                         if let Some(call_back) = &mut self.call_back {
